@@ -33,13 +33,15 @@ def plan(ctx, thorough):
     cases = []
     for line in wg.corpus_lines("C01"):
         f = line.split(" ")
-        if f[0] == "RT":
+        op, _, at = f[0].partition("@")
+        if op == "RT":
             ty, bo, prefix, toks = f[1], f[2], int(f[3]), f[4:]
             t = wg.parse_ext(ty)
         else:
             ty, bo, prefix, toks = "-", f[1], int(f[2]), f[3:]
             t = ("r", [])
-        cases.append({"stream": "corpus", "op": f[0], "api": "corpus", "ty": ty, "t": t, "bo": bo, "prefix": prefix, "toks": toks, "cls": None})
+        cases.append({"stream": "corpus", "op": op, "api": "corpus", "ty": ty, "t": t, "bo": bo, "prefix": prefix, "toks": toks, "cls": None,
+                      "place": "@" + at if at else ""})
     for ty in cat + monly:
         t = wg.parse_ext(ty)
         for api, n in (("typed", n_rt), ("param", n_rp)):
@@ -73,7 +75,8 @@ def plan(ctx, thorough):
     # where the body that is read lives: offset 0 (as built), behind n foreign bytes (from_parts with buf_offset n; 3 and 4 are
     # normalised to 0 by from_parts), or as the receive path delivers it (behind the header of a marshalled message)
     for c in cases:
-        c["place"] = "" if c["stream"] == "corpus" else rp.choice(PLACES)
+        if c["stream"] != "corpus":
+            c["place"] = rp.choice(PLACES)
     return cases
 
 
